@@ -585,8 +585,22 @@ class KnownMultiplierStringType(Type):
         self.bits_per_character = integer_as_number_of_bits_power_of_two(
             len(permitted_alphabet) - 1)
 
-        if len(self.PERMITTED_ALPHABET) < 2 ** self.bits_per_character:
+        if self.is_largest_character_in_field(permitted_alphabet):
             self.permitted_alphabet = self.PERMITTED_ALPHABET
+
+    def is_largest_character_in_field(self, permitted_alphabet):
+        """The characters keep their own values if the largest of them
+        fits in the field, otherwise they are numbered from zero in
+        canonical order (X.691, 30.5.4).
+
+        """
+
+        characters = permitted_alphabet.encode_map
+
+        if not characters:
+            return True
+
+        return max(characters) < 2 ** self.bits_per_character
 
     def set_size_range(self, minimum, maximum, has_extension_marker):
         self.minimum = minimum
